@@ -6,7 +6,7 @@ statement grammar Spec/RefStmt.v (`mstmt`), with the parenthesisation choices ac
 """
 import c03gen as G
 
-CL = dict(items=0, on=1, where=2, group=3, having=4, order=5, values=6, set=7, returning=8)
+CL = dict(items=0, on=1, where=2, group=3, having=4, order=5, values=6, set=7, returning=8, don=9)
 
 
 class CoreStmtGen(G.StmtGen):
@@ -19,9 +19,9 @@ class CoreStmtGen(G.StmtGen):
 
     def select(self, depth=0, simple=False, scalar=False):
         s = super().select(depth, simple, scalar)
-        s["distinct_on"], s["all_kw"], s["fetch"], s["for_"], s["offset_rows"] = [], False, None, None, False
+        s["all_kw"], s["fetch"], s["for_"], s["offset_rows"] = False, None, None, False
         s["cols"] = [((("star",), None, False) if e[0] == "qstar" else (e, al, askw)) for e, al, askw in s["cols"]]
-        s["group_by"] = [g for g in s["group_by"] if g[0] == "expr"]
+        s["group_by"] = [g for g in s["group_by"] if g[0] in ("expr", "rollup", "cube")]
         return s
 
     def returning(self):
@@ -83,7 +83,9 @@ class Conv:
 
     def select(self, s, k):
         sh = 16 * k
-        need(not s["distinct_on"] and not s["all_kw"] and not s["fetch"] and not s["for_"] and not s["offset_rows"] and not s.get("rollup_mysql"))
+        need(not s["all_kw"] and not s["fetch"] and not s["for_"] and not s["offset_rows"] and not s.get("rollup_mysql"))
+        need(s["distinct"] or not s["distinct_on"])
+        don = [self.E(e, CL["don"] + sh, i) for i, e in enumerate(s["distinct_on"])]
         items = []
         for i, (e, al, askw) in enumerate(s["cols"]):
             if e[0] == "star":
@@ -107,18 +109,24 @@ class Conv:
             else: c = "(Some (JUsing [%s]))" % "; ".join(G.coq_str(x) for x in cond[1])
             joins.append("(MkJoin %s %s %s %s)" % (G.coq_bool(nat), side, tb, c))
         wh = "None" if s["where"] is None else "(Some %s)" % self.E(s["where"], CL["where"] + sh, 0)
-        gb = []
-        for i, g in enumerate(s["group_by"]):
-            need(g[0] == "expr")
-            gb.append(self.E(g[1], CL["group"] + sh, i))
+        gb, gi = [], 0
+        for g in s["group_by"]:
+            if g[0] == "expr":
+                gb.append("(GrExpr %s)" % self.E(g[1], CL["group"] + sh, gi)); gi += 1
+            else:
+                need(g[0] in ("rollup", "cube") and g[1])
+                xs = []
+                for x in g[1]:
+                    xs.append(self.E(x, CL["group"] + sh, gi)); gi += 1
+                gb.append("(%s [%s])" % ("GrRollup" if g[0] == "rollup" else "GrCube", "; ".join(xs)))
         hv = "None" if s["having"] is None else "(Some %s)" % self.E(s["having"], CL["having"] + sh, 0)
         ob = []
         for i, (e, d, n) in enumerate(s["order_by"]):
             ob.append("(MkOrder %s %s %s)" % (self.E(e, CL["order"] + sh, i), "None" if d is None else "(Some %s)" % G.coq_bool(d == "ASC"),
                                               "None" if n is None else "(Some %s)" % G.coq_bool(n)))
         num = lambda v: "None" if v is None else "(Some %s)" % G.coq_str(str(v))
-        return "(MkSelect %s [%s] [%s] [%s] %s [%s] %s [%s] %s %s)" % (
-            G.coq_bool(s["distinct"]), "; ".join(items), "; ".join(frm), "; ".join(joins), wh, "; ".join(gb), hv, "; ".join(ob),
+        return "(MkSelect %s [%s] [%s] [%s] [%s] %s [%s] %s [%s] %s %s)" % (
+            G.coq_bool(s["distinct"]), "; ".join(don), "; ".join(items), "; ".join(frm), "; ".join(joins), wh, "; ".join(gb), hv, "; ".join(ob),
             num(s["limit"]), num(s["offset"]))
 
     def query(self, q, base):
@@ -246,6 +254,8 @@ FIXED_TEXTS = [
     "SELECT name FROM target", "SELECT a FROM source s JOIN matched m ON TRUE", "SELECT a value FROM t", "SELECT f ( a ) status FROM t",
     "SELECT 1 WHERE a = 1", "SELECT 1 ORDER BY 1 LIMIT 1 OFFSET 2", "SELECT COUNT ( x ) n HAVING COUNT ( x ) > 1", "SELECT 1 GROUP BY a", "SELECT 1 ON a",
     "INSERT INTO t SELECT 1 RETURNING a", "INSERT INTO t SELECT 1 ON CONFLICT DO NOTHING", "SELECT 1 x y", "SELECT 1 FETCH FIRST 1 ROWS ONLY",
+    "SELECT DISTINCT ON ( a + 1 , ( b ) ) c , d FROM t", "SELECT a FROM t GROUP BY ROLLUP ( a , b + 1 ) , c , CUBE ( ( d ) )", "SELECT a FROM t GROUP BY ROLLUP ( )",
+    "SELECT a FROM t GROUP BY ROLLUP a", "SELECT a FROM t GROUP BY CUBE ( a b )", "SELECT a FROM t GROUP BY ROLLUP ( a ) HAVING b ORDER BY c",
     "SELECT a FROM t GROUP BY 'GROUPING SETS' , b", 'SELECT a FROM t GROUP BY "GROUPING SETS"', "SELECT a FROM t GROUP BY GROUPING SETS ( ( a ) )",
     "SELECT " + "( " * 98 + "a" + " )" * 98 + " FROM t", "SELECT " + "( " * 99 + "a" + " )" * 99 + " FROM t", "SELECT " + "NOT " * 99 + "a FROM t",
 ]
